@@ -164,7 +164,15 @@ func checkC05(c DataCase) Verdict {
 	}
 	base := asm.Baseline(bsrc)
 	if d, cls := diagnosedC05(r, base); d {
-		v.Skip = "diagnosed: " + cls
+		// The generator builds only programs every operand of which is a constant, a string or an
+		// already defined label; on the tree the check was built against none of them is diagnosed.
+		// C05 is unconditional ("DB, DW and DD emit ..."), so refusing such a program is a violation.
+		if r.Panic != "" {
+			v.Skip = "panic (C13 decides)"
+			return v
+		}
+		v.Fail = fmt.Sprintf("a program of well-formed data directives is rejected or diagnosed (%s); output % x\n--- source ---\n%s", cls, head(r.Out, 32), src)
+		v.Sig = "C05|diagnosed|" + cls
 		return v
 	}
 	kinds := map[string]bool{}
